@@ -65,6 +65,57 @@ func checkC11(c *Ctx, r *Report) {
 		"Field.ConType": "write-once cache (store control-dependent on ConType == nil) of the container type, which is determined by the position of the field in the document (fragments apply only to the identical type); never printed",
 	}
 	r.Tables["write_once_exemptions"] = exempt
+	// the exemption holds only while the cache is nothing but a cache: the region guarded by "still unset" contains
+	// the store and no call. Anything else done there happens on the first evaluation of the parsed request only,
+	// which is exactly a difference between the first and the later evaluations.
+	for _, fn := range eng.c.allFns {
+		for _, b := range fn.Blocks {
+			for _, in := range b.Instrs {
+				st, ok := in.(*ssa.Store)
+				if !ok {
+					continue
+				}
+				fa, ok := st.Addr.(*ssa.FieldAddr)
+				if !ok {
+					continue
+				}
+				o, f := fieldOwner(fa.X.Type(), fa.Field)
+				if _, isEx := exempt[o+"."+f]; !isEx {
+					continue
+				}
+				// blocks dominated by the "unset" branch that holds the store
+				var guardIf *ssa.If
+				for _, g := range blockGuards(b) {
+					ng := normGuard(g)
+					if v, eq, isN := nilCmp(ng.cond); isN && eq == ng.val {
+						if _, o2, f2, isF := loadOfField(v); isF && o2 == o && f2 == f {
+							guardIf = g.at
+						}
+					}
+				}
+				onlyStore := guardIf != nil
+				what := ""
+				if guardIf != nil {
+					region := guardIf.Block().Succs[0]
+					for _, b2 := range fn.Blocks {
+						if !(b2 == region || region.Dominates(b2)) {
+							continue
+						}
+						for _, in2 := range b2.Instrs {
+							if call, isCall := in2.(ssa.CallInstruction); isCall {
+								onlyStore = false
+								what = fnName(fn) + " calls " + calleeDesc2(call) + " only while " + o + "." + f + " is unset"
+							}
+						}
+					}
+				} else {
+					what = "the store is not guarded by a test that the field is still unset"
+				}
+				r.check("C11.PURE", fmt.Sprintf("%s: the %s.%s cache gates nothing but its own store", fnName(fn), o, f), st.Pos(), onlyStore,
+					what+": the first evaluation of a parsed request takes a path the later evaluations skip, so the responses differ (first: validation error and no key; later: resolve error and a null)")
+			}
+		}
+	}
 	collect(entry, func(ef effect) bool {
 		inReq := (ef.target.kind == rParam && ef.target.idx == exeIdx) || (requestTypes[ef.owner] && !isFreshTarget(ef.target))
 		if !inReq {
@@ -144,4 +195,11 @@ func checkC11(c *Ctx, r *Report) {
 		fmt.Sprintf("%d write effects summarised over %d functions (fixpoint after %d rounds); %d constructs write into the request", nWrites, len(eng.sums), eng.iter, len(found)))
 	r.floor("C11.PURE", "write effects summarised for the entry points", nWrites, 40)
 	r.floor("C11.PURE", "functions summarised", len(eng.sums), 60)
+}
+
+func calleeDesc2(call ssa.CallInstruction) string {
+	if f := calleeObj(call); f != nil {
+		return f.Name() + "()"
+	}
+	return "a function value"
 }
